@@ -2,7 +2,8 @@
    (props/C14/harness), recomputes every observation with the extracted Coq model
    (coq/extracted/c14_model.ml) and prints one MISMATCH block per disagreeing case.
      B;<edits>;<triples>;<obs>
-     W;<mid>:<nid>;<npool>;<wops>;<obs>                                              *)
+     W;<mid>:<nid>;<npool>;<wops>;<obs>
+     D;<operations of the default builder of a new bus>                              *)
 module BZ = Z   (* zarith; the extracted model defines its own module Z *)
 open C14_model
 
@@ -107,6 +108,7 @@ let () =
         match String.split_on_char ';' line with
         | ["B"; e; t; obs] -> obs, run_b e t
         | ["W"; ids; np; ops; obs] -> obs, run_w ids np ops obs
+        | ["D"; obs] -> obs, ops_str default_ops
         | _ -> "PANIC-OR-MALFORMED", "(model is total)" in
       if impl <> model then begin
         incr bad;
